@@ -173,93 +173,101 @@ Definition is_push_frame (r2ps : bool) (m : msg) : bool :=
            | v0 :: _ => negb (bytes_eqb (m_str v0) (b "pong"%string))
            end).
 
-(** One iteration of the `for` loop of _backgroundRead on the decoded frame [m].
+(** One iteration of the `for` loop of _backgroundRead on the decoded frame [m], in four phases
+    (line numbers refer to pipe.go as of the verified tree).  [inl] = the iteration ended (`continue`
+    or a Go panic), [inr] = fall through to the next phase.
     [next] is what NextResultCh would return now (the oldest written slot, if any); the action
-    [ATakeNext true] says that it was consumed.  The result is the new loop state and the effects, in
-    program order.  A Go panic leaves the state as it was and ends the action list with [APanic]. *)
+    [ATakeNext true] says that it was consumed.  A Go panic leaves the state as it was and ends the
+    action list with [APanic]. *)
+
+(** 581-600: push frames *)
+Definition rd_pushed (r2ps : bool) (ver : Z) (st : rstate) (m : msg)
+  : (rstate * list action) + (rstate * list action) :=
+  if is_push_frame r2ps m then
+    let '(prply, unsub, pa) := handle_push (m_vals m) in
+    let st1 := set_flags st prply unsub in
+    if negb prply then inl (st1, pa)                                        (* 582-584 continue *)
+    else if (0 <? r_skip st1)%Z then
+      inl (set_flags (set_skip st1 (r_skip st1 - 1)%Z) false false, pa)     (* 585-590 *)
+    else if unsub then inl (set_flags st1 false false, pa)                  (* repaired code: an unsubscribe
+                                                                               notification is never a reply *)
+    else inr (st1, pa)
+  else if Z.eqb ver 6 && negb (match m_vals m with [] => true | _ => false end) then
+    inl (st, [AUnmodelled])                                                 (* 591-612, not modelled *)
+  else inr (st, []).
+
+(** 613-677: take the next queue entry when the current one is fulfilled; cache commits otherwise *)
+Definition rd_taken (next : option slot) (st1 : rstate) (a1 : list action) (m : msg)
+  : (rstate * list action) + (rstate * list action) :=
+  if Nat.eqb (r_ff st1) (List.length (r_multi st1)) then
+    match next with
+    | None =>
+      let st2 := set_slot st1 None in
+      let a2 := a1 ++ [ATakeNext false] in
+      if r_unsub st2 then inl (set_flags st2 false false, a2)               (* 623-627 *)
+      else if r_sur st2 && fst (is_unsub_reply m) then inl (set_sur st2 false, a2)  (* 628-631 *)
+      else inl (st1, a2 ++ [APanic 1])                                      (* 632 *)
+    | Some sl => inr (set_slot st1 (Some sl), a1 ++ [ATakeNext true])       (* 634-636 *)
+    end
+  else
+    match nth_error (r_multi st1) (r_ff st1) with
+    | None => inl (st1, a1 ++ [APanic 3])
+    | Some c =>
+      if Nat.ltb 0 (r_ff st1) && c_static c then                            (* 637-653 *)
+        inr (st1, a1 ++ [ACacheStatic (r_ff st1) (N.eqb (m_typ m) t_err)])
+      else if Nat.leb 4 (r_ff st1) && Nat.leb 2 (List.length (m_vals m)) &&
+              match r_multi st1 with c0 :: _ => c_optin c0 | [] => false end then  (* 654-677 *)
+        match nth_error (r_multi st1) (r_ff st1 - 1) with
+        | Some cp => inr (st1, a1 ++ [ACacheOptIn (r_ff st1 - 1) (c_mget cp)])
+        | None => inl (st1, a1 ++ [APanic 3])
+        end
+      else inr (st1, a1)
+    end.
+
+(** 678-708: classification of the frame for multi[ff] = c; [st] is the state at loop entry *)
+Definition rd_classify (st st2 : rstate) (a2 : list action) (c : cmd) (m : msg)
+  : (rstate * list action) + (rstate * msg) :=
+  if r_prply st2 then
+    if r_unsub st2 then inl (set_flags st2 false false, a2)                 (* 684-688 *)
+    else
+      let st3 := set_flags st2 false false in
+      if negb (c_noreply c) then inl (st, a2 ++ [APanic 1])                 (* 691-693 *)
+      else inr (set_skip st3 (Z.of_nat (c_argc c) - 2)%Z, empty_msg)        (* 694-695 *)
+  else if c_noreply c && bytes_eqb (m_str m) (b "QUEUED"%string) then
+    inl (st, a2 ++ [APanic 2])                                              (* 696-697 *)
+  else if c_unsub c && negb (fst (is_unsub_reply m)) then
+    inr (set_sur st2 true, m)                                               (* 698-700 *)
+  else
+    (* when IsUnsub() held, isUnsubReply was evaluated (and answered true): msg may be patched *)
+    let m1 := if c_unsub c then snd (is_unsub_reply m) else m in
+    if r_sur st2 then                                                       (* 701-708 *)
+      if negb (fst (is_unsub_reply m1)) then inl (st, a2 ++ [APanic 1])
+      else inl (set_sur st2 false, a2)
+    else inr (st2, m1).
+
+(** 709-716 *)
+Definition rd_store (st3 : rstate) (a2 : list action) (m3 : msg) : rstate * list action :=
+  let a3 := if r_resps st3 then a2 ++ [AStore (r_ff st3) m3] else a2 in
+  let st4 := set_ff st3 (S (r_ff st3)) in
+  if Nat.eqb (r_ff st4) (List.length (r_multi st4)) then (st4, a3 ++ [AComplete m3]) else (st4, a3).
+
 Definition reader_step (r2ps : bool) (ver : Z) (next : option slot) (st : rstate) (m : msg)
   : rstate * list action :=
-  (* 581 *)
-  let pushed :=
-    if is_push_frame r2ps m then
-      let '(prply, unsub, pa) := handle_push (m_vals m) in
-      let st1 := set_flags st prply unsub in
-      if negb prply then inl (st1, pa)                                      (* 582-584 continue *)
-      else if (0 <? r_skip st1)%Z then
-        inl (set_flags (set_skip st1 (r_skip st1 - 1)%Z) false false, pa)   (* 585-590 *)
-      else if unsub then inl (set_flags st1 false false, pa)                (* repaired code: an unsubscribe
-                                                                               notification is never a reply *)
-      else inr (st1, pa)
-    else if Z.eqb ver 6 && negb (match m_vals m with [] => true | _ => false end) then
-      inl (st, [AUnmodelled])                                               (* 591-612, not modelled *)
-    else inr (st, [])
-  in
-  match pushed with
+  match rd_pushed r2ps ver st m with
   | inl r => r
   | inr (st1, a1) =>
-    (* 613 *)
-    let taken :=
-      if Nat.eqb (r_ff st1) (List.length (r_multi st1)) then
-        match next with
-        | None =>
-          let st2 := set_slot st1 None in
-          let a2 := a1 ++ [ATakeNext false] in
-          if r_unsub st2 then inl (set_flags st2 false false, a2)           (* 623-627 *)
-          else if r_sur st2 && fst (is_unsub_reply m) then inl (set_sur st2 false, a2)  (* 628-631 *)
-          else inl (st1, a2 ++ [APanic 1])                                  (* 632 *)
-        | Some sl => inr (set_slot st1 (Some sl), a1 ++ [ATakeNext true])   (* 634-636 *)
+    match rd_taken next st1 a1 m with
+    | inl r => r
+    | inr (st2, a2) =>
+      match nth_error (r_multi st2) (r_ff st2) with
+      | None => (st, a2 ++ [APanic 3])                                      (* multi[ff] out of range *)
+      | Some c =>
+        match rd_classify st st2 a2 c m with
+        | inl r => r
+        | inr (st3, m3) => rd_store st3 a2 m3
         end
-      else
-        match nth_error (r_multi st1) (r_ff st1) with
-        | None => inl (st1, a1 ++ [APanic 3])
-        | Some c =>
-          if Nat.ltb 0 (r_ff st1) && c_static c then                        (* 637-653 *)
-            inr (st1, a1 ++ [ACacheStatic (r_ff st1) (N.eqb (m_typ m) t_err)])
-          else if Nat.leb 4 (r_ff st1) && Nat.leb 2 (List.length (m_vals m)) &&
-                  match r_multi st1 with c0 :: _ => c_optin c0 | [] => false end then  (* 654-677 *)
-            match nth_error (r_multi st1) (r_ff st1 - 1) with
-            | Some cp => inr (st1, a1 ++ [ACacheOptIn (r_ff st1 - 1) (c_mget cp)])
-            | None => inl (st1, a1 ++ [APanic 3])
-            end
-          else inr (st1, a1)
-        end
-  in
-  match taken with
-  | inl r => r
-  | inr (st2, a2) =>
-    match nth_error (r_multi st2) (r_ff st2) with
-    | None => (st, a2 ++ [APanic 3])                                        (* multi[ff] out of range *)
-    | Some c =>
-      (* 678 *)
-      let classified :=
-        if r_prply st2 then
-          if r_unsub st2 then inl (set_flags st2 false false, a2)           (* 684-688 *)
-          else
-            let st3 := set_flags st2 false false in
-            if negb (c_noreply c) then inl (st, a2 ++ [APanic 1])           (* 691-693 *)
-            else inr (set_skip st3 (Z.of_nat (c_argc c) - 2)%Z, empty_msg)  (* 694-695 *)
-        else if c_noreply c && bytes_eqb (m_str m) (b "QUEUED"%string) then
-          inl (st, a2 ++ [APanic 2])                                        (* 696-697 *)
-        else if c_unsub c && negb (fst (is_unsub_reply m)) then
-          inr (set_sur st2 true, m)                                         (* 698-700 *)
-        else
-          (* when IsUnsub() held, isUnsubReply was evaluated (and answered true): msg may be patched *)
-          let m1 := if c_unsub c then snd (is_unsub_reply m) else m in
-          if r_sur st2 then                                                 (* 701-708 *)
-            if negb (fst (is_unsub_reply m1)) then inl (st, a2 ++ [APanic 1])
-            else inl (set_sur st2 false, a2)
-          else inr (st2, m1)
-      in
-      match classified with
-      | inl r => r
-      | inr (st3, m3) =>
-        (* 709-716 *)
-        let a3 := if r_resps st3 then a2 ++ [AStore (r_ff st3) m3] else a2 in
-        let st4 := set_ff st3 (S (r_ff st3)) in
-        if Nat.eqb (r_ff st4) (List.length (r_multi st4)) then (st4, a3 ++ [AComplete m3]) else (st4, a3)
       end
     end
-  end
   end.
 
 (** The deferred function of _backgroundRead, run when readNextMessage failed:
